@@ -297,9 +297,12 @@ def _tx(props_file, theorems, comps, level_text, extra_note=""):
             "explanation": _TX_EXPL, "level_text": level_text, "level_note": _TX_NOTE + extra_note,
             "assumptions": _TX_ASSUME}
 
-PROPS["C04"] = _tx("C04", ["C04_delivery_is_final", "C04_no_integrity_failure_after_success"], ["recv"],
+PROPS["C04"] = _tx("C04", ["C04_delivery_is_final", "C04_no_integrity_failure_after_success",
+                           "C04_step_changes_filestore_only_when_ending", "C04_filestore_changes_at_most_once"], ["recv"],
     "Proof on the receive-transaction model for every operation sequence: once the receive-data phase is left the "
-    "filestore (delivered file, effects of filestore requests) never changes again and finalisation cannot recur; after a "
+    "filestore (delivered file, effects of filestore requests) never changes again and finalisation cannot recur; a step that "
+    "changes the filestore ends the data phase or the transaction, so in any history run the way the loop runs it (stopping at "
+    "Terminated, which covers the unacknowledged transfer without closure) the filestore changes at most once; after a "
     "successful delivery no later output reports FileChecksumFailure/FilesizeError. Lock-step correspondence with the real "
     "RecvTransaction plus an implementation-side oracle (file unchanged, no second Finished, no integrity fault).",
     " The clause 'a sending entity reports success only for a transaction its receiver reported as delivered' is a "
